@@ -7,11 +7,11 @@ export GOFLAGS=-mod=mod GOPROXY=off GOSUMDB=off GOTOOLCHAIN=local
 wt=/tmp/seed/$prop
 [ -d $wt ] && { echo "worktree $wt exists"; exit 9; }
 git -C /repo worktree add -q --detach $wt HEAD || exit 9
-cp -r /verif/seeded/$m/demo $wt/demo
+cp -r ${VERIF_HOME:-/verif}/seeded/$m/demo $wt/demo
 cd $wt
 run_demo() { if [ -f demo/run.sh ]; then bash demo/run.sh >/tmp/seed/$m.demo.log 2>&1; else go test ./demo/... >/tmp/seed/$m.demo.log 2>&1; fi; echo $?; }
 base=$(run_demo)
-git apply /verif/seeded/$m/patch.diff || { echo "patch does not apply"; cd /; git -C /repo worktree remove --force $wt; exit 3; }
+git apply ${VERIF_HOME:-/verif}/seeded/$m/patch.diff || { echo "patch does not apply"; cd /; git -C /repo worktree remove --force $wt; exit 3; }
 go build ./... || { echo "does not build"; }
 tests=$(go test -mod=mod -vet=off -count=1 ./... 2>&1 | grep -c '^ok')
 fails=$(go test -mod=mod -vet=off -count=1 ./... 2>&1 | grep -c '^FAIL\|^---')
